@@ -136,6 +136,7 @@ func scenarioC09x(c *hlib.RunCtx) *hlib.Violation {
 	steppedBack := false
 	suspended := false
 	seenCalls := 0
+	modeOff := false                          // the user has turned telemetry off while the process lives
 	frozen := map[string]map[string]uint64{} // old file -> values when a rotation completed
 	slackAt := map[string]map[string]uint64{} // frozen file -> name -> amount in flight when that file was frozen
 	inflightAt := map[string]uint64{}        // name -> amount in flight when the latest rotation completed
@@ -167,7 +168,16 @@ func scenarioC09x(c *hlib.RunCtx) *hlib.Violation {
 				if p2 != nil && strings.Contains(filepath.Base(v.path), "prog2") {
 					continue // the rotating process under observation is the first one
 				}
-				if v.path != cur && v.path != cur2 && v.dec != nil && frozen[v.path] == nil {
+				// (with telemetry turned off meanwhile, a rotation at or after a file's
+				// recorded end leaves that file behind as well, whatever the process
+				// still holds: nothing is created in its place, nothing more lands in it)
+				expiredInModeOff := false
+				if modeOff && v.dec != nil {
+					if e, err := time.Parse(time.RFC3339, v.dec.Meta["TimeEnd"]); err == nil && !s.NowT().Before(e) {
+						expiredInModeOff = true
+					}
+				}
+				if (v.path != cur && v.path != cur2 || expiredInModeOff) && v.dec != nil && frozen[v.path] == nil {
 					m := map[string]uint64{}
 					for n, val := range v.dec.Counts {
 						m[n] = val
@@ -216,7 +226,14 @@ func scenarioC09x(c *hlib.RunCtx) *hlib.Violation {
 		}
 		if ph > 0 && wkKind <= 1 && t.Bool(1, 4) {
 			// between two phases the user changes the week-end day, or the file goes away
-			switch t.Draw(3) {
+			switch t.Draw(4) {
+			case 3:
+				// ... or the user turns telemetry off while the process lives: the next
+				// rotation finds mode off; it creates nothing, and nothing more may land in
+				// the expired file
+				os.WriteFile(filepath.Join(w.tele, "mode"), []byte([]string{"off", "off 2024-01-01\n"}[t.Draw(2)]), 0666)
+				modeOff = true
+				s.Probe("mode-off-before-a-rotation")
 			case 0:
 				os.WriteFile(wkPath, []byte(fmt.Sprintf("%d\n", t.Draw(7))), 0666)
 			case 1:
